@@ -152,12 +152,16 @@ fn chain(b: &mut u64, seed: u64, out: &mut Out, rng: &mut Rng, rounds: u64) {
             "mutable" | "mutable_seq" => crypto::mutable_target(&pk, None),
             _ => rng.id(),
         };
-        let n = rng.range(6, 36) as usize;
+        // every fifth chain is LONG (90..140 peers, one more shared bit per rank): the lookup needs far more requests than any
+        // lookup in a random network does, so a lifetime budget / cap on the number of requests of one lookup shows
+        let long = r % 5 == 4;
+        let n = if long { rng.range(90, 140) as usize } else { rng.range(6, 36) as usize };
+        let step = if long { 1 } else { 4 };
         let w = 1 + rng.below(3) as usize;
-        // rank i shares 16 + 4*i leading bits with the target and differs at the next one: strictly decreasing distance
+        // rank i shares 16 + step*i leading bits with the target and differs at the next one: strictly decreasing distance
         let ids: Vec<[u8; 20]> = (0..n)
             .map(|i| {
-                let p = 16 + 4 * i;
+                let p = 16 + step * i;
                 let mut id = rng.id();
                 for bit in 0..p {
                     let (by, m) = (bit / 8, 0x80u8 >> (bit % 8));
